@@ -165,7 +165,7 @@ impl Prop for C17 {
         "a generated, cleanly applying workspace is put into the state 'm patches applied' (tree = model T_m) and then made inconsistent in one way: .pc/applied-patches with one entry changed / made unreadable (an unknown option behind it, bytes that are not UTF-8) / two entries swapped / longer than the series (extra names, or the series truncated) ; a goal naming an unknown patch or an already applied one; a patch file of the requested range missing, being a directory (also with --mmap) or unparseable (truncated hunk, bad hunk header, bad line in hunk, GIT binary patch, no file name) at any position with all earlier patches applying cleanly; threads 1..16, all verbosities, both loaders. Oracle: exit status exactly 1, something on stderr, no crash, and the complete snapshot (bytes, modes, inodes, pinned mtimes, no new entries) of the working directory unchanged. non-trivial = the inconsistency is not at position 0 (something would have been applied before it) or there is prior applied state; distinct = distinct case".into()
     }
     fn assumptions(&self) -> Vec<String> {
-        vec!["blank lines and comments in applied-patches are accepted by the tool and are not an inconsistency".into()]
+        vec!["blank lines in applied-patches are accepted by the tool and are not an inconsistency (lines starting with # are names since fix F25; the generator puts neither into the file)".into()]
     }
     fn budget(&self, tier: Tier) -> (u32, usize) {
         (tier.pick(1200, 20000), 900)
